@@ -378,7 +378,9 @@ func (p *Program) verify(fn *ssa.Function, fc *FuncContract) (x *Exec) {
 			// a captured variable lives in a cell the enclosing function allocated: never nil, allocated at entry
 			st.assume(Not(Eq(pv.R, Int(0))))
 			st.assume(Select(st.heap.alloc, pv.R))
-			fr.names[fv.Name()] = v
+			// in contracts the captured variable is named like in the source: its value, not its cell
+			fr.names[fv.Name()] = st.load(st.heap, pv, true)
+			fr.names["cell_"+fv.Name()] = v // the cell itself (its content can change across calls and loop iterations)
 		}
 		fr.env[fv] = v
 	}
@@ -902,7 +904,7 @@ func (x *Exec) binop(st *State, fr *Frame, i *ssa.BinOp) Value {
 		switch i.Op {
 		case token.ADD:
 			declareFun("strcat", "(declare-fun strcat (Int Int) Int)")
-			return Sc{App("strcat", SInt, ta, tb)}
+			return Sc{Strcat(ta, tb)}
 		}
 		panic(unsupported("string operator " + i.Op.String()))
 	}
